@@ -154,7 +154,10 @@ def applyCmd (s : St) (c : Cmd) : St :=
       let (s, cs) := regAll s h trigs
       let s := dropHandle s h
       s.push [.flush, .batch cs]
-  | .regType t ty h => setTbl s t ty (s.tbl t ty ++ [h])
+  | .regType t ty h =>
+    -- `register_removal_reactor` also starts tracking removals of the component type
+    let s : St := if t = .rem ∧ !s.tracked.contains ty then { s with tracked := s.tracked ++ [ty] } else s
+    setTbl s t ty (s.tbl t ty ++ [h])
   | .regEnt rt e h =>
     match s.entReactors e with
     | some l => { s with entReactors := upd s.entReactors e (some (l ++ [(rt, h)])) }
